@@ -335,7 +335,11 @@ pub fn ref_optimum_dp_fast(frags: &[Frag], widths: &[f64], pen: &Pen) -> f64 {
     b[0] = 0.0;
     for j in 1..=n {
         let last = &frags[j - 1];
-        for i in (0..j).rev() {
+        // i = 0 (a first line, possibly with a different width) is always a candidate; the
+        // pruning below only applies among the later lines, which share one width
+        let mut order: Vec<usize> = vec![0];
+        order.extend((1..j).rev());
+        for i in order {
             let target = width_of_line(if i == 0 { 0 } else { 1 }, widths);
             let width = pre[j] - pre[i] - last.ws + last.p;
             let mut c = pen.nline;
@@ -356,7 +360,7 @@ pub fn ref_optimum_dp_fast(frags: &[Frag], widths: &[f64], pen: &Pen) -> f64 {
             }
             // lines only get wider as i decreases (non-negative widths): once the overflow cost
             // alone exceeds the best total found for j, no smaller i can win
-            if width > target && pen.overflow > 0.0 && c >= b[j] {
+            if i > 0 && width > target && pen.overflow > 0.0 && c >= b[j] {
                 break;
             }
         }
